@@ -208,7 +208,7 @@ PROPS["C06"] = dict(
           "payloads. For the item and everything reachable from it (parents, children, "
           "creators, recipients, actor, target): String/Preview at widths from -10 to 200, Name, Timestamp, Parents(q), "
           "Children().Harvest(q,s), Media/ProfilePic/Banner, SelectLink(n) for n in {min int,-1,0,1,2,3,5,10,1000,max int}. Oracle: "
-          "returns normally (panics caught), every single call within 10 s (60 s per case; a breach must reproduce alone in a fresh process), producing < 64 MiB and at most 400 bytes of output per displayed character. Non-trivial: at least one corruption, nesting "
+          "returns normally (panics caught), every single call within 12 s of CPU time (a machine under load cannot fake that; 300 s of wall clock per case count as a hang; a breach must reproduce alone in a fresh process), producing < 64 MiB and at most 400 bytes of output per displayed character. Non-trivial: at least one corruption, nesting "
           "depth >= 8, or a width <= 2. Distinct = distinct (JSON text, widths)."),
     units=[
         rapid("Prop", "TestProp", 12000, 400000, timeout=dict(quick=600, thorough=3000)),
@@ -220,7 +220,7 @@ PROPS["C06"] = dict(
               "watchdog; thorough adds coverage-guided fuzzing of raw bodies in all four media types. Crash-freedom and a generous "
               "time/size budget are the oracle; content correctness is left to C01/C12/C14/C15. Sampled."),
         design_ref="DESIGN.md §3 C06",
-        note=("Trusted: the 10 s per call / 64 MiB budget as a proxy for 'promptly' and 'does not exhaust memory'. One open finding "
+        note=("Trusted: the 12 CPU-seconds per call / 64 MiB / 400 bytes per character budget as a proxy for 'promptly' and 'does not exhaust memory'. One open finding "
               "(deep-nesting-cost) is excluded by construction and counted."),
         technique="property-based robustness testing (rapid) with corruption pass + native go fuzzing, watchdog oracle",
     ),
